@@ -179,4 +179,102 @@ theorem oRunAttach_ok (d rest : Bytes) (mode : Nat) (kv : Nat × List Nat) (hk :
       rw [hv]
       simp only [Res.ok_bind, Res.pure_eq, hpl]
 
+/-- `readOffsets`, one (non-run) container written by the reference encoder. -/
+theorem oOffAttach_ok (d rest : Bytes) (mode : Nat) (kv : Nat × List Nat) (hk : GroupOk kv) (off : Nat)
+    (hu : useRun mode kv.2 = false)
+    (h : d.drop off = payload mode kv.2 ++ rest) (hoff : off ≤ d.length) :
+    oOffAttach d (ocont mode kv.2).typ kv.2.length off = .ok (ocont mode kv.2) := by
+  obtain ⟨hl1, hl2⟩ := hk.len
+  have hl : (d.drop off).length = (payload mode kv.2).length + rest.length := by rw [h]; simp
+  rw [List.length_drop] at hl
+  unfold oOffAttach ocont
+  rw [payload_eq] at h hl
+  simp only [hu, Bool.false_eq_true, ↓reduceIte] at h hl ⊢
+  by_cases h4 : kv.2.length ≤ 4096
+  · simp only [h4, ↓reduceIte, Cont.typ, cArray] at h hl ⊢
+    rw [flatMap_leBytes2_length] at hl
+    rw [if_neg (by omega)]
+    have hv := view_of_drop "official.array.view" d _ rest off h (by omega)
+    rw [flatMap_leBytes2_length] at hv
+    have e2 : kv.2.length * 2 = 2 * kv.2.length := by omega
+    rw [e2, hv]
+    simp only [Res.ok_bind, Res.pure_eq]
+    rw [u16s_flatMap kv.2 hk.bound]
+  · simp only [h4, ↓reduceIte, Cont.typ, cArray, cBitmap, Nat.reduceEqDiff] at h hl ⊢
+    have hpl : (packFrom 8192 0 kv.2).length = 8192 := packFrom_length _ _ _
+    rw [hpl] at hl
+    rw [if_neg (by simp only [bitmapBytes]; omega)]
+    have hv := view_of_drop "official.bitmap.view" d _ rest off h (by omega)
+    rw [hpl] at hv
+    simp only [bitmapBytes]
+    rw [hv]
+    simp only [Res.ok_bind, Res.pure_eq]
+
+def gslot (mode : Nat) (kv : Nat × List Nat) : Slot :=
+  { key := kv.1, typ := (ocont mode kv.2).typ, n := kv.2.length, c := none }
+def gdone (mode : Nat) (kv : Nat × List Nat) : Slot :=
+  { key := kv.1, typ := (ocont mode kv.2).typ, n := kv.2.length, c := some (ocont mode kv.2) }
+def gentry (mode : Nat) (kv : Nat × List Nat) : Entry := ⟨kv.1, kv.2.length, ocont mode kv.2⟩
+def gdesc (kv : Nat × List Nat) : Bytes := leBytes 2 kv.1 ++ leBytes 2 (kv.2.length - 1)
+
+theorem gdesc_length (kv : Nat × List Nat) : (gdesc kv).length = 4 := by simp [gdesc, leBytes_length]
+
+theorem flatMap_gdesc_length (g : VMap) : (g.flatMap gdesc).length = 4 * g.length := by
+  induction g with
+  | nil => rfl
+  | cons v vs ih => rw [List.flatMap_cons, List.length_append, ih, gdesc_length, List.length_cons]; omega
+
+theorem oHdrLoop_ok (h : OffHeader) (mode : Nat) (todo acc : VMap) (rest : Bytes)
+    (hg : ∀ kv ∈ todo, GroupOk kv) (hasc : (acc ++ todo).Pairwise (fun a b => a.1 < b.1))
+    (htyp : ∀ j kv, todo[j]? = some kv → officialType h (acc.length + j) kv.2.length = .ok (ocont mode kv.2).typ) :
+    oHdrLoop h todo.length acc.length (todo.flatMap gdesc ++ rest) (acc.map (gslot mode)).reverse
+      = .ok ((acc ++ todo).map (gslot mode)) := by
+  induction todo generalizing acc with
+  | nil => simp [oHdrLoop]
+  | cons kv t ih =>
+    have hk := hg kv (by simp)
+    obtain ⟨hl1, hl2⟩ := hk.len
+    have hbuf : (kv :: t).flatMap gdesc ++ rest
+        = leBytes 2 kv.1 ++ (leBytes 2 (kv.2.length - 1) ++ (t.flatMap gdesc ++ rest)) := by
+      simp [List.flatMap_cons, gdesc, List.append_assoc]
+    rw [hbuf]
+    generalize hB : leBytes 2 kv.1 ++ (leBytes 2 (kv.2.length - 1) ++ (t.flatMap gdesc ++ rest)) = buf
+    have hlen : 4 ≤ buf.length := by rw [← hB]; simp [leBytes_length]; omega
+    have d0 : buf.drop 0 = leBytes 2 kv.1 ++ (leBytes 2 (kv.2.length - 1) ++ (t.flatMap gdesc ++ rest)) := by
+      rw [← hB]; rfl
+    have d2 : buf.drop 2 = leBytes 2 (kv.2.length - 1) ++ (t.flatMap gdesc ++ rest) := by
+      rw [← hB]; exact List.drop_left' (leBytes_length 2 _)
+    have d4 : buf.drop 4 = t.flatMap gdesc ++ rest := by
+      have := congrArg (List.drop 2) d2
+      rw [List.drop_drop] at this
+      rw [this]; exact List.drop_left' (leBytes_length 2 _)
+    simp only [List.length_cons, oHdrLoop]
+    rw [rd_of_drop _ buf _ 2 2 (kv.2.length - 1) d2 (by omega) (by show kv.2.length - 1 < 65536; omega)]
+    rw [rd_of_drop _ buf _ 0 2 kv.1 d0 (by omega) (by have := hk.key; exact this)]
+    simp only [Res.ok_bind]
+    have hn : kv.2.length - 1 + 1 = kv.2.length := by omega
+    rw [hn]
+    have := htyp 0 kv (by simp)
+    simp only [Nat.add_zero] at this
+    rw [this]
+    simp only [Res.ok_bind]
+    rw [sub_tail _ buf 4 hlen, d4]
+    simp only [Res.ok_bind]
+    have hhead : ∀ s ∈ ((acc.map (gslot mode)).reverse).head?, s.key < kv.1 := by
+      intro s hs
+      rw [List.head?_reverse] at hs
+      have hmem : s ∈ acc.map (gslot mode) := List.mem_of_getLast? hs
+      obtain ⟨a, ha, rfl⟩ := List.mem_map.mp hmem
+      exact (List.pairwise_append.mp hasc).2.2 a ha kv (by simp)
+    rw [putCVd_cons _ _ _ _ hhead]
+    have := ih (acc ++ [kv]) (fun x hx => hg x (by simp [hx])) (by simpa using hasc)
+      (fun j kv' hj => by
+        have := htyp (j + 1) kv' (by simpa using hj)
+        simp only [List.length_append, List.length_cons, List.length_nil]
+        rw [← this]; congr 1; omega)
+    simp only [List.map_append, List.map_cons, List.map_nil, List.reverse_append, List.reverse_cons,
+      List.reverse_nil, List.nil_append, List.cons_append, List.append_assoc, List.length_append,
+      List.length_cons, List.length_nil, gslot] at this ⊢
+    exact this
+
 end PV.C04
